@@ -61,6 +61,13 @@ def parseBeh (j : Json) : Except String (Nat × CbBehaviour) := do
   let id ← j.getObjValAs? Nat "id"
   let beh ← j.getObjValAs? String "beh"
   let n := (j.getObjValAs? Nat "n").toOption.getD 0
+  -- an explicit list of element kinds takes precedence: "var" / "seqOfVars" / anything else
+  match j.getObjValAs? (Array String) "elems" with
+  | .ok ks =>
+    let es := ks.toList.map (fun k => if k == "var" then ElemKind.var
+      else if k == "seqOfVars" then ElemKind.seqOfVars else ElemKind.nonVar)
+    return (id, behaviourOfElems es)
+  | .error _ =>
   match beh with
   | "vars" => return (id, .returnsVars n)
   | "notCallable" => return (id, .notCallable)
